@@ -408,6 +408,16 @@ def gen(ctx):
         elif m == 7:
             p[:3, :3] = r @ np.diag([1.0, 1.0, float(rng.choice([1.01, 0.9, 2.0]))])
             what, exp = "non-uniformly scaled block", {"is_so3": False, "is_se3": False, "is_sim3": False}
+            if (i // 8) % 2:   # the same defects on top of a uniform scale 1e-4..1e4: still not a similarity
+                sc = [1e-4, 1e-4, 1e-3, 1e-3, 1e2, 1e4, 3e-4][(i // 16) % 7] * float(rng.uniform(1.0, 3.0))
+                if (i // 16) % 2:
+                    sh = np.eye(3)
+                    sh[int(rng.integers(0, 3)), int(rng.integers(0, 3))] += float(rng.choice([0.1, 0.2, 0.5]))
+                    p[:3, :3] = sc * (r @ sh)
+                    what = "sheared/stretched block at scale %.0e" % sc
+                else:
+                    p[:3, :3] = sc * p[:3, :3]
+                    what = "non-uniformly scaled block at scale %.0e" % sc
         c = {"kind": "member", "p": H(p), "what": what}
         if exp is not None:
             c["expect"] = exp
